@@ -225,26 +225,26 @@ def run_job(job):
         return res
 
 
-def diff_runs(steps, base, run):
-    """Where a run with workers differs from the serial run: command by command (return value /
-    exception class), then output by output, file by file. -> list of strings."""
+def diff_runs(steps, base, run, ref="serial run"):
+    """Where a run (with workers) differs from the reference run `base` (the serial run): command by command
+    (return value / exception class), then output by output, file by file. -> list of strings."""
     out = []
     for i, (a, b) in enumerate(zip(base["returns"], run["returns"])):
         if a != b:
-            out.append(f"step {i + 1} ({steps[i][0]}) returned {b!r}, serial run {a!r}"
+            out.append(f"step {i + 1} ({steps[i][0]}) returned {b!r}, {ref} {a!r}"
                        + (f" [{'; '.join(run.get('messages', []))}]" if run.get("messages") else ""))
     if len(base["returns"]) != len(run["returns"]) and not out:
-        out.append(f"{len(run['returns'])} steps ran, serial run {len(base['returns'])}")
+        out.append(f"{len(run['returns'])} steps ran, {ref} {len(base['returns'])}")
     for o in sorted(set(base["outputs"]) | set(run["outputs"])):
         a, b = base["outputs"].get(o), run["outputs"].get(o)
         if a == b:
             continue
         if not (isinstance(a, dict) and isinstance(b, dict)):
-            out.append(f"output {o}: {short_repr(b)}, serial run {short_repr(a)}")
+            out.append(f"output {o}: {short_repr(b)}, {ref} {short_repr(a)}")
             continue
         for f in sorted(set(a) | set(b)):
             if a.get(f) != b.get(f):
-                out.append(f"output {o}/{f}: {short_repr(b.get(f))}, serial run {short_repr(a.get(f))}")
+                out.append(f"output {o}/{f}: {short_repr(b.get(f))}, {ref} {short_repr(a.get(f))}")
     return out
 
 
@@ -265,6 +265,44 @@ def snapshot_file(p):
             return ["text", f.read()]
 
 
+def run_chain(job):
+    """job["chain"]: a list of step lists, run ONE AFTER THE OTHER IN THIS PROCESS (each on a freshly built
+    copy of the inputs, in its own temporary directory) -> {"chain": [result of each]}. Whatever a command
+    leaves behind in the process (module-level caches, patched defaults, ...) is there for the next one."""
+    return {"chain": [run_job(dict(job, steps=steps)) for steps in job["chain"]]}
+
+
+def run_isolated(job):
+    """Run the job in a forked child of THIS process. The parent has imported torch and the command-line
+    module but never calls a command itself (`main` runs a job list of isolated jobs only), so the child
+    starts from the state of a fresh interpreter; nothing it does reaches the next job."""
+    fd, path = tempfile.mkstemp(prefix="c17i_", suffix=".json", dir="/tmp")
+    os.close(fd)
+    try:
+        pid = os.fork()
+        if pid == 0:
+            code = 1
+            try:
+                res = run_chain(job) if "chain" in job else run_job(job)
+                with open(path, "w") as f:
+                    json.dump(res, f)
+                code = 0
+            except BaseException:  # noqa
+                import traceback
+                traceback.print_exc()
+            finally:
+                sys.stderr.flush()
+                os._exit(code)
+        _, status = os.waitpid(pid, 0)
+        if status != 0:
+            raise RuntimeError(f"isolated job ended with status {status}")
+        with open(path) as f:
+            return json.load(f)
+    finally:
+        with contextlib.suppress(OSError):
+            os.remove(path)
+
+
 def main(argv):
     repo = os.environ.get("VERIF_REPO", "/repo")
     sys.path.insert(0, os.path.join(repo, "src"))
@@ -272,9 +310,13 @@ def main(argv):
     torch.set_num_threads(1)   # no intra-op thread pool in a process that is going to fork
     with open(argv[1]) as f:
         jobs = json.load(f)
+    if any(j.get("isolate") for j in jobs):
+        if not all(j.get("isolate") for j in jobs):
+            raise RuntimeError("isolated jobs must not share a process with jobs run in the parent")
+        cl()
     out = []
     for job in jobs:
-        out.append(run_job(job))
+        out.append(run_isolated(job) if job.get("isolate") else run_job(job))
     with open(argv[2], "w") as f:
         json.dump(out, f)
     return 0
